@@ -135,7 +135,7 @@ func c15E2E(args []string) {
 	}
 	m.write("lib/slow.py", c15SlowPy, 0o755)
 	m.write("lib/lib.mro", c15Lib("fastq", "", "", "1"), 0o644)
-	m.write("inv.mro", inv(4), 0o644)
+	m.write("inv.mro", inv(8), 0o644)
 
 	// ---- scenario 1: a second instance against a live lock; --inspect
 	first := m.cmd(context.Background(), "psA")
@@ -160,6 +160,28 @@ func c15E2E(args []string) {
 		say("ok inspect_admitted read-only instance attached while the pipestance is locked (still serving after 2s)")
 	} else {
 		say("FAIL readonly_attach_refused --inspect exited with %d against a live pipestance", rc)
+	}
+	// a read-only instance that is REFUSED (the library was edited
+	// semantically meanwhile) must leave the live instance's lock alone
+	m.write("lib/lib.mro", c15Lib("fastq", "", "", "2"), 0o644)
+	rc = m.run("psA", 10*time.Second, "--inspect")
+	m.write("lib/lib.mro", c15Lib("fastq", "", "", "1"), 0o644)
+	alive = first.ProcessState == nil && syscall.Kill(first.Process.Pid, 0) == nil
+	switch {
+	case !alive:
+		say("skip refused_inspect the first instance had finished already")
+	case rc <= 0:
+		say("FAIL inspect_with_semantic_edit_admitted --inspect with an edited library exited with %d", rc)
+	case !m.exists("psA", "_lock"):
+		say("FAIL refused_readonly_attach_removed_live_lock the lock of the live instance is gone after a refused --inspect")
+	default:
+		rc2 := m.run("psA", 20*time.Second)
+		alive = first.ProcessState == nil && syscall.Kill(first.Process.Pid, 0) == nil
+		if rc2 > 0 || !alive {
+			say("ok refused_inspect_left_lock exit=%d, a further writer is refused (exit %d)", rc, rc2)
+		} else {
+			say("FAIL second_instance_attached_to_live_pipestance after a refused --inspect: exit=%d", rc2)
+		}
 	}
 	err := first.Wait()
 	if err == nil && m.exists("psA", "_finalstate") && !m.exists("psA", "_lock") {
